@@ -78,6 +78,8 @@ structure SubOk (s : Sub) : Prop where
   unsubAcc : s.unsubscribed = true → s.phase = .accepted
   closeAcc : s.closeSent = true → s.phase = .accepted
   orphAcc : s.orphaned = true → s.phase = .accepted
+  closeTask : s.closeSent = true → s.taskDone = true
+  closeHandler : s.closeSent = true → s.handlerDone = true
 
 /-- subscriptions of connection `c` that hold one of its permits -/
 def held (st : State) (c : Nat) : Nat := st.subs.countP (fun s => s.conn == c && s.holds)
@@ -267,7 +269,7 @@ theorem inv_send {st : State} (h : Inv st) (k p : Nat) : Inv (doSend st k p).1 :
       · split
         · exact h
         · refine inv_put h hl rfl rfl ?_ rfl ?_
-          · exact ⟨ok.table, ok.clonesAcc, ok.unsubAcc, ok.closeAcc, ok.orphAcc⟩
+          · exact ⟨ok.table, ok.clonesAcc, ok.unsubAcc, ok.closeAcc, ok.orphAcc, ok.closeTask, ok.closeHandler⟩
           · simp [Conn.push, Sub.holds]
 
 theorem inv_clone {st : State} (h : Inv st) (k : Nat) : Inv (doClone st k).1 := by
@@ -285,7 +287,7 @@ theorem inv_clone {st : State} (h : Inv st) (k : Nat) : Inv (doClone st k).1 := 
       refine inv_put h hl rfl rfl ?_ rfl ?_
       · have := ok.table
         have := ok.clonesAcc hc
-        refine ⟨?_, fun _ => this, ok.unsubAcc, ok.closeAcc, ok.orphAcc⟩
+        refine ⟨?_, fun _ => this, ok.unsubAcc, ok.closeAcc, ok.orphAcc, ok.closeTask, ok.closeHandler⟩
         simp_all
       · have : s.clones + 1 > 0 := by omega
         simp [Sub.holds, hc, this]
@@ -309,7 +311,7 @@ theorem inv_dropSink {st : State} (h : Inv st) (k : Nat) : Inv (doDropSink st k)
       have hacc := ok.clonesAcc hc
       refine inv_put h hl rfl rfl ?_ ?_ ?_
       · have ht := ok.table
-        refine ⟨?_, fun _ => hacc, ok.unsubAcc, ok.closeAcc, fun _ => hacc⟩
+        refine ⟨?_, fun _ => hacc, ok.unsubAcc, ok.closeAcc, fun _ => hacc, ok.closeTask, ok.closeHandler⟩
         simp only []
         cases hi : s.inTable <;> cases hr : dropSinkRemovesEntry s.clones <;> simp_all
         · have : s.clones ≠ 1 := fun e => by rw [e, dropSink_last] at hr; cases hr
@@ -334,7 +336,7 @@ theorem inv_return {st : State} (h : Inv st) (k : Nat) (r : Ret) : Inv (doReturn
     split
     · exact h
     · refine inv_put h hl rfl rfl ?_ rfl ?_
-      · exact ⟨ok.table, ok.clonesAcc, ok.unsubAcc, ok.closeAcc, ok.orphAcc⟩
+      · exact ⟨ok.table, ok.clonesAcc, ok.unsubAcc, ok.closeAcc, ok.orphAcc, ok.closeTask, fun _ => rfl⟩
       · simp [Sub.holds]
 
 theorem inv_task {st : State} (h : Inv st) (k : Nat) : Inv (doTask st k).1 := by
@@ -348,18 +350,20 @@ theorem inv_task {st : State} (h : Inv st) (k : Nat) : Inv (doTask st k).1 := by
     · rename_i hg
       have hacc : s.phase = .accepted := by
         simp at hg; exact hg.1.1
+      have hdone : s.handlerDone = true := by
+        simp at hg; exact hg.1.2
       split
       · refine inv_put h hl rfl rfl ?_ rfl ?_
-        · exact ⟨ok.table, ok.clonesAcc, ok.unsubAcc, ok.closeAcc, ok.orphAcc⟩
+        · exact ⟨ok.table, ok.clonesAcc, ok.unsubAcc, ok.closeAcc, ok.orphAcc, fun _ => rfl, fun _ => hdone⟩
         · simp [Sub.holds]
       · split
         · refine inv_put h hl rfl rfl ?_ rfl ?_
-          · exact ⟨ok.table, ok.clonesAcc, ok.unsubAcc, ok.closeAcc, ok.orphAcc⟩
+          · exact ⟨ok.table, ok.clonesAcc, ok.unsubAcc, ok.closeAcc, ok.orphAcc, fun _ => rfl, fun _ => hdone⟩
           · simp [Sub.holds]
         · split
           · exact h
           · refine inv_put h hl rfl rfl ?_ rfl ?_
-            · exact ⟨ok.table, ok.clonesAcc, ok.unsubAcc, fun _ => hacc, ok.orphAcc⟩
+            · exact ⟨ok.table, ok.clonesAcc, ok.unsubAcc, fun _ => hacc, ok.orphAcc, fun _ => rfl, fun _ => hdone⟩
             · simp [Sub.holds, Conn.push]
 
 theorem inv_connClose {st : State} (h : Inv st) (c : Nat) : Inv (doConnClose st c).1 := by
@@ -501,7 +505,7 @@ theorem inv_unsubscribe {st : State} (h : Inv st) (c m x rid : Nat) :
           have ok := h.subOk s (lookup_mem hl)
           have hacc := (ok.table.mp hit).1
           refine inv_put h hl rfl rfl ?_ rfl ?_
-          · refine ⟨?_, ok.clonesAcc, fun _ => hacc, ok.closeAcc, ok.orphAcc⟩
+          · refine ⟨?_, ok.clonesAcc, fun _ => hacc, ok.closeAcc, ok.orphAcc, ok.closeTask, ok.closeHandler⟩
             simp
           · simp [Sub.holds, Conn.push]
 
@@ -548,5 +552,18 @@ theorem reachable_step {st : State} (h : Reachable st) (op : Op) : Reachable (st
     | nil => rfl
     | cons o r ih => exact ih _
   exact (this _ _).symm
+
+/-! ### shared vocabulary of the property theorems -/
+
+def connOpen (st : State) (c : Nat) : Prop := ∃ cn, st.conns[c]? = some cn ∧ cn.isOpen = true
+
+/-- "currently active": accepted, not unsubscribed, the handler still holds a sink, connection open -/
+def Active (st : State) (s : Sub) : Prop :=
+  s.phase = .accepted ∧ s.unsubscribed = false ∧ s.clones > 0 ∧ connOpen st s.conn
+
+/-- no table entry has been removed by the drop of a non-last clone (the F-13 region) -/
+def NoOrphan (st : State) : Prop := ∀ s ∈ st.subs, s.orphaned = false
+
+instance (st : State) : Decidable (NoOrphan st) := by unfold NoOrphan; infer_instance
 
 end Jrpc.SubServer
